@@ -115,24 +115,14 @@ static void do_sum()
     printf("end\n");
 }
 
-// wake <id> nx nmax fs|rw sigma_cells x0 f0 fmax [L s xi b]
-// impulse response (explored, C16 causality): a narrow Gaussian line density centred at cell x0
-// of an nx grid, field object with the model impedance on nmax samples, single bunch at padded
-// offset 0; prints the wake potential on the nx cells.
-static void do_wake()
+// wake <id> nx nmax KIND sigma_cells x0 ...   impulse response (C16 causality): a narrow Gaussian line
+// density centred at cell x0 of an nx grid, field object with the impedance on nmax samples, single bunch at
+// padded offset 0; prints the wake potential on the nx cells.
+//   KIND = fs f0 fmax | rw f0 fmax L s xi b | coll fmax outer inner | pp f0 fmax g
+//        | fac fmax R frev gap use_csr s xi rcoll   (makeImpedance without a file: "wake" of the result or
+//          "null", and "wake_<part>" of every contribution constructed as do_factory does)
+static void wake_of(const char* tag, std::shared_ptr<Impedance> z, unsigned nx, double sigma, double x0)
 {
-    std::string id = next();
-    unsigned nx = nextl();
-    size_t nmax = nextl();
-    std::string kind = next();
-    double sigma = nextd(), x0 = nextd();
-    frequency_t f0 = nextd(), fmax = nextd();
-    std::shared_ptr<Impedance> z;
-    if (kind == "fs") z = std::make_shared<FreeSpaceCSR>(nmax, f0, fmax);
-    else {
-        double L = nextd(), s = nextd(), xi = nextd(), b = nextd();
-        z = std::make_shared<ResistiveWall>(nmax, f0, fmax, L, s, xi, b);
-    }
     auto ps = mkps(nx, 1);
     std::vector<projection_t> prof(nx);
     double tot = 0;
@@ -143,9 +133,55 @@ static void do_wake()
     std::cout.rdbuf(old);
     std::cout.clear();
     meshaxis_t* w = ef.wakePotential();
-    printf("case %s\nwake", id.c_str());
+    printf("%s", tag);
     for (unsigned x = 0; x < nx; x++) pf(w[x]);
-    printf("\nend\n");
+    printf("\n");
+}
+
+static void do_wake()
+{
+    std::string id = next();
+    unsigned nx = nextl();
+    size_t nmax = nextl();
+    std::string kind = next();
+    double sigma = nextd(), x0 = nextd();
+    printf("case %s\n", id.c_str());
+    if (kind == "fs") {
+        frequency_t f0 = nextd(), fmax = nextd();
+        wake_of("wake", std::make_shared<FreeSpaceCSR>(nmax, f0, fmax), nx, sigma, x0);
+    } else if (kind == "rw") {
+        frequency_t f0 = nextd(), fmax = nextd();
+        double L = nextd(), s = nextd(), xi = nextd(), b = nextd();
+        wake_of("wake", std::make_shared<ResistiveWall>(nmax, f0, fmax, L, s, xi, b), nx, sigma, x0);
+    } else if (kind == "coll") {
+        frequency_t fmax = nextd();
+        double outer = nextd(), inner = nextd();
+        wake_of("wake", std::make_shared<CollimatorImpedance>(nmax, fmax, outer, inner), nx, sigma, x0);
+    } else if (kind == "pp") {
+        frequency_t f0 = nextd(), fmax = nextd();
+        double g = nextd();
+        wake_of("wake", std::make_shared<ParallelPlatesCSR>(nmax, f0, fmax, g), nx, sigma, x0);
+    } else if (kind == "fac") {
+        frequency_t fmax = nextd();
+        double R = nextd(), frev = nextd(), gap = nextd();
+        bool use_csr = nextl() != 0;
+        double s = nextd(), xi = nextd(), rc = nextd();
+        std::streambuf* old = std::cout.rdbuf(nullptr);
+        std::shared_ptr<Impedance> z = makeImpedance(nmax, nullptr, fmax, R, frev, gap, use_csr, s, xi, rc, "");
+        std::cout.rdbuf(old);
+        std::cout.clear();
+        if (z) wake_of("wake", z, nx, sigma, x0); else printf("null\n");
+        const double f0 = physcons::c / (2 * M_PI * R);
+        const double radius = std::abs(gap / 2);
+        wake_of("wake_fs", std::make_shared<FreeSpaceCSR>(nmax, f0, fmax), nx, sigma, x0);
+        if (gap > 0) wake_of("wake_pp", std::make_shared<ParallelPlatesCSR>(nmax, f0, fmax, gap), nx, sigma, x0);
+        if (s > 0) wake_of("wake_rw", std::make_shared<ResistiveWall>(nmax, frev, fmax, physcons::c / frev, s, xi, radius), nx, sigma, x0);
+        if (rc > 0 && radius > rc) wake_of("wake_coll", std::make_shared<CollimatorImpedance>(nmax, fmax, radius, rc), nx, sigma, x0);
+    } else {
+        fprintf(stderr, "unknown wake kind %s\n", kind.c_str());
+        exit(3);
+    }
+    printf("end\n");
 }
 
 int main(int argc, char** argv)
